@@ -274,10 +274,36 @@ func (c *Ctx) c12Maps() {
 	wp := c.mustMethod("C12.R2", "wire", "Server", "writeParameters")
 	if wp != nil {
 		R.Analysed(fname(wp))
+		// the function that builds the session's parameter map: writeParameters itself or a helper it calls, whose
+		// result is the map it built
+		bfn := wp
+		var builderCall *ssa.Call
+		hasUpdates := func(fn *ssa.Function) bool {
+			for _, b := range fn.Blocks {
+				for _, in := range b.Instrs {
+					if _, ok := in.(*ssa.MapUpdate); ok {
+						return true
+					}
+				}
+			}
+			return false
+		}
+		if !hasUpdates(wp) {
+			for _, ci := range core.Calls(wp) {
+				call, isCall := ci.(*ssa.Call)
+				if !isCall {
+					continue
+				}
+				if h := core.StaticCallee(call); h != nil && c.P.InPkg(h, "wire") && h.Blocks != nil && hasUpdates(h) && h.Signature.Results().Len() == 1 && core.NamedOf(h.Signature.Results().At(0).Type()) == params {
+					bfn, builderCall = h, call
+					R.Analysed(fname(h))
+				}
+			}
+		}
 		want := map[string]string{"server_encoding": "const:UTF8", "client_encoding": "const:UTF8", "is_superuser": "call:EncodeBoolean", "session_authorization": "call:AuthenticatedUsername", "server_version": "field:Version"}
 		got := map[string]bool{}
 		var theMap ssa.Value
-		for _, b := range wp.Blocks {
+		for _, b := range bfn.Blocks {
 			for _, in := range b.Instrs {
 				mu, ok := in.(*ssa.MapUpdate)
 				if !ok {
@@ -311,7 +337,7 @@ func (c *Ctx) c12Maps() {
 						ok = true
 						// guarded by Version != ""
 						guarded := false
-						for _, bb := range wp.Blocks {
+						for _, bb := range bfn.Blocks {
 							for _, i2 := range bb.Instrs {
 								cmp, isB := i2.(*ssa.BinOp)
 								if !isB || (cmp.Op != token.NEQ && cmp.Op != token.EQL) {
@@ -354,11 +380,35 @@ func (c *Ctx) c12Maps() {
 				}
 			}
 		}
-		if rng == nil || theMap == nil || rng.X != theMap {
+		// in writeParameters' terms the announced map is the builder's result
+		builtMap := theMap
+		if builderCall != nil {
+			builtMap = builderCall
+			for _, r := range returns(bfn) {
+				var srcs []ssa.Value
+				leaves(forwardLoad(r.Results[0]), map[ssa.Value]bool{}, &srcs)
+				var msrcs []ssa.Value
+				leaves(theMap, map[ssa.Value]bool{}, &msrcs)
+				same := len(srcs) > 0
+				for _, sv := range srcs {
+					found := sv == theMap
+					for _, mv := range msrcs {
+						if mv == sv {
+							found = true
+						}
+					}
+					if !found {
+						same = false
+					}
+				}
+				R.Check(same, "C12.R2", fkey(bfn)+":returns-built-map", c.at(r), "the helper that builds the session parameters returns the map it built", "result is the updated map", "the helper returns a map other than the one that received the updates")
+			}
+		}
+		if rng == nil || theMap == nil || rng.X != builtMap {
 			R.Fail("C12.R2", "writeParameters:emission-ranges-over-map", c.atFn(wp), "one ParameterStatus is emitted per entry of the parameter map (range over that map)", "the emission loop is not a range over the map that received the updates: entries can be duplicated or skipped")
 		} else {
 			R.OK("C12.R2", "writeParameters:emission-ranges-over-map", c.at(rng), "one ParameterStatus is emitted per entry of the parameter map (range over that map)", "ssa.Range over the updated map")
-			for _, b := range wp.Blocks {
+			for _, b := range bfn.Blocks {
 				for _, in := range b.Instrs {
 					mu, ok := in.(*ssa.MapUpdate)
 					if !ok {
@@ -368,7 +418,16 @@ func (c *Ctx) c12Maps() {
 					if key == "server_version" {
 						continue
 					}
-					R.Check(core.InstrDominates(mu, rng), "C12.R2", "writeParameters:unconditional:"+key, c.at(mu), key+" is set on every path before the parameters are emitted", "the update dominates the emission loop", "the update of "+key+" does not dominate the emission loop")
+					before := bfn == wp && core.InstrDominates(mu, rng)
+					if bfn != wp {
+						before = true
+						for _, r := range returns(bfn) {
+							if !core.InstrDominates(mu, r) {
+								before = false
+							}
+						}
+					}
+					R.Check(before, "C12.R2", "writeParameters:unconditional:"+key, c.at(mu), key+" is set on every path before the parameters are emitted", "the update dominates the emission loop", "the update of "+key+" does not dominate the emission loop")
 				}
 			}
 			// key/value emitted are the iteration's key/value
@@ -412,7 +471,7 @@ func (c *Ctx) c12Maps() {
 			n := 0
 			for _, ci := range callsIn(wp, calleeIs(ssp)) {
 				n++
-				R.Check(ci.Common().Args[1] == theMap, "C12.R2", "writeParameters:context-slot", c.at(ci), "the announced parameters are what handlers later read as server parameters", "setServerParameters receives the announced map", "setServerParameters receives a different map than the one announced")
+				R.Check(ci.Common().Args[1] == builtMap, "C12.R2", "writeParameters:context-slot", c.at(ci), "the announced parameters are what handlers later read as server parameters", "setServerParameters receives the announced map", "setServerParameters receives a different map than the one announced")
 			}
 			R.Floor("C12.R2", "setServerParameters calls in writeParameters", n, 1)
 		}
